@@ -10,7 +10,7 @@ from . import common
 
 ID = "C04"
 LEVEL = "fault_enumeration"
-BUDGET = {"quick": 1600, "thorough": 32000}
+BUDGET = {"quick": 1600, "thorough": 16000}
 WALL_CAP = {"quick": 600, "thorough": 5400}
 RULE = ("case = generated 2D/3D plotfile x drawn level limit; storage-fault operators (delete/truncate/extend/insert/"
         "remove bytes of a binary, rewrite FAB header index range or component count with and without resizing the "
@@ -152,7 +152,7 @@ def run_case(ctx):
     common.draw_env(ctx)
     if src.flag("crashed_writer", 6):
         return crashed_writer_case(ctx, src)
-    m = world.gen_world(src, max_boxes=12)
+    m = world.gen_world(src, max_boxes=12, scale=("manyboxes", "farcorner", "manyfields"), scale_rate=80)
     master = os.path.join(ctx.scratch, "master")
     world.write_plotfile(m, master)
     limit = m.nlev - 1
